@@ -197,7 +197,24 @@ def run(run):
                     files[rel] = text
                     if rng.random() < 0.4:
                         files[rel.replace(".java", "_copy.java")] = text      # identical code in another file
+                # sources cut off in the middle (an interrupted save, a partial checkout): the constructs that are complete in
+                # what is left are represented. Cut points are searched for until two of them leave a tree whose root is an
+                # ERROR node that still holds constructs (the others: a `program` root with ERROR nodes inside).
+                base_text = files[os.path.join(".mvn", "wrapper", "F0.java")]
+                err_roots = 0
+                for j in range(40):
+                    cut = base_text[:rng.randrange(len(base_text) // 3, len(base_text))]
+                    one = S.real_build(h, cut.encode("utf-8"), "cut/Cut.java")
+                    root_is_error = one.get("outcome") == "ok" and (one.get("tree") or {}).get("t") == "ERROR" and len(one.get("nodes") or []) >= 2
+                    if root_is_error or j < 2:
+                        files["cut/Cut%d_%d.java" % (pi, j)] = cut
+                        err_roots += 1 if root_is_error else 0
+                    if err_roots >= 2:
+                        break
+                stats["truncated_sources_with_error_root"] += err_roots
                 for rel in list(files):
+                    if rel.startswith("cut/"):
+                        continue
                     for ext in (".jav", ".java.txt", ".JAVA", ".kt", ""):
                         if rng.random() < 0.3:
                             files[rel.replace(".java", "") + "_x" + ext] = files[rel]
